@@ -3,7 +3,8 @@
   their parameter ranges; the result is the same when operands are swapped; a transversal
   crossing inside both ranges is returned; exactly separated operands return nothing."
 
-  Property theorems only (helper lemmas live in `Lemmas/Isect2.lean`, `Lemmas/Isect3.lean`).
+  Property theorems only (helper lemmas live in `Lemmas/Isect2.lean`, `Lemmas/Isect3.lean`,
+  `Lemmas/Sphere.lean`, `Lemmas/Arc.lean`).
   All statements are about the definitions regenerated from the repository by py2lean
   (`Lbg.Gen.*`).  Suffixes: `_ss/_sr/_rs/_rr` = (segment|ray) × (segment|ray); a segment's
   parameter range is `0 ≤ t ≤ 1`, a ray's is `0 ≤ t`.
@@ -1109,12 +1110,8 @@ example :
   Trigonometry stays abstract (`M.acos`, `M.sqrt`, `M.pi` are uninterpreted); the angle of a
   point is `arc2_a_from_pt M a q = Vector2D(1,0).angle_counterclockwise(q − c)`.
 
-  KNOWN DEFECT (not hidden): in `intersect_line2d_arc2d` the TANGENT case (`u1 == u2`) returns the
-  tangent point whenever it passes the angular filter, WITHOUT testing the segment/ray parameter
-  range.  So the full statement "every returned point lies on the operand within range" is false
-  (counter-example below); the proved `_sound_partial` theorems give the range clause under the
-  non-tangency guard `LineCircleDisc l a ≠ 0`.  The `_infinite_` variants have no range clause
-  and are sound at full strength.
+  (The former tangent-case defect — a tangent point was returned without testing the parameter
+  range — is fixed in the library; soundness now holds at full strength for all variants.)
 -/
 
 /-- Squared Euclidean distance in 2D. -/
@@ -1122,14 +1119,6 @@ def distSq2 (a b : V2 α) : α := (a.x - b.x) * (a.x - b.x) + (a.y - b.y) * (a.y
 
 /-- `q` lies on the carrier circle of the arc: `|q − c|² = r²`. -/
 def OnCircle2 (a : Arc2S α) (q : V2 α) : Prop := distSq2 q a.c = a.r * a.r
-
-/-- Discriminant `b² − 4ac` of the line/circle quadratic (zero iff the line is tangent). -/
-def LineCircleDisc (l : LR2 α) (a : Arc2S α) : α :=
-  2 * (l.v.x * (l.p.x - a.c.x) + l.v.y * (l.p.y - a.c.y))
-      * (2 * (l.v.x * (l.p.x - a.c.x) + l.v.y * (l.p.y - a.c.y)))
-    - 4 * (l.v.x * l.v.x + l.v.y * l.v.y)
-      * (a.c.x * a.c.x + a.c.y * a.c.y + (l.p.x * l.p.x + l.p.y * l.p.y)
-          - 2 * (a.c.x * l.p.x + a.c.y * l.p.y) - a.r * a.r)
 
 /-- Unfolding of the angular filter `Arc2D._pt_in`: a full circle accepts everything; otherwise
 the point's angle must lie in the open counter-clockwise span from `a1` to `a2`
@@ -1148,17 +1137,14 @@ theorem arc2_pt_in_of_circle (M : MathOps α) (a : Arc2S α) (q : V2 α)
     (h : arc2_is_circle M a = true) : arc2_pt_in M a q = true :=
   (arc2_pt_in_iff M a q).mpr (Or.inl h)
 
-/-- Partial soundness (segment × arc).  FULL statement (false because of the tangent-case defect,
-see the counter-example): every returned point lies on the segment within range, on the circle, and
-passes the filter.  PROVED: every returned point lies on the carrier circle, on the carrier line,
-passes the arc's angular filter, and — unless the line is tangent to the circle
-(`LineCircleDisc l a = 0`) — lies on the segment within its parameter range. -/
-theorem intersect_line2d_arc2d_s_sound_partial (M : MathOps α) (l : LR2 α) (a : Arc2S α) (q : V2 α)
+/-- Soundness at full strength (segment × arc): every returned point lies on the carrier circle
+(`|q − c|² = r²`, from the quadratic and the square-root law), on the segment WITHIN its parameter
+range, and passes the arc's angular filter `_pt_in`. -/
+theorem intersect_line2d_arc2d_s_sound (M : MathOps α) (l : LR2 α) (a : Arc2S α) (q : V2 α)
     (hv : l.v.x * l.v.x + l.v.y * l.v.y ≠ 0)
     (hsqrt : ∀ x, 0 ≤ x → M.sqrt x * M.sqrt x = x)
     (h : q ∈ intersect_line2d_arc2d_s M l a) :
-    OnCircle2 a q ∧ OnLine2 l q ∧ arc2_pt_in M a q = true ∧
-      (LineCircleDisc l a ≠ 0 → OnSeg2 l q) := by
+    OnCircle2 a q ∧ OnSeg2 l q ∧ arc2_pt_in M a q = true := by
   rw [Lemmas.intersect_line2d_arc2d_s_eq] at h
   exact Lemmas.arcPts_sound .seg M l a q hv (hsqrt _) h
 
@@ -1175,17 +1161,14 @@ theorem intersect_line2d_arc2d_s_complete (M : MathOps α) (l : LR2 α) (a : Arc
   subst hq
   exact Lemmas.arcPts_complete .seg M l a hv (hsqrt _) t ⟨h0, h1⟩ hc hf
 
-/-- Partial soundness (ray × arc).  FULL statement (false because of the tangent-case defect,
-see the counter-example): every returned point lies on the ray within range, on the circle, and
-passes the filter.  PROVED: every returned point lies on the carrier circle, on the carrier line,
-passes the arc's angular filter, and — unless the line is tangent to the circle
-(`LineCircleDisc l a = 0`) — lies on the ray within its parameter range. -/
-theorem intersect_line2d_arc2d_r_sound_partial (M : MathOps α) (l : LR2 α) (a : Arc2S α) (q : V2 α)
+/-- Soundness at full strength (ray × arc): every returned point lies on the carrier circle
+(`|q − c|² = r²`, from the quadratic and the square-root law), on the ray WITHIN its parameter
+range, and passes the arc's angular filter `_pt_in`. -/
+theorem intersect_line2d_arc2d_r_sound (M : MathOps α) (l : LR2 α) (a : Arc2S α) (q : V2 α)
     (hv : l.v.x * l.v.x + l.v.y * l.v.y ≠ 0)
     (hsqrt : ∀ x, 0 ≤ x → M.sqrt x * M.sqrt x = x)
     (h : q ∈ intersect_line2d_arc2d_r M l a) :
-    OnCircle2 a q ∧ OnLine2 l q ∧ arc2_pt_in M a q = true ∧
-      (LineCircleDisc l a ≠ 0 → OnRay2 l q) := by
+    OnCircle2 a q ∧ OnRay2 l q ∧ arc2_pt_in M a q = true := by
   rw [Lemmas.intersect_line2d_arc2d_r_eq] at h
   exact Lemmas.arcPts_sound .ray M l a q hv (hsqrt _) h
 
@@ -1211,8 +1194,7 @@ theorem intersect_line2d_infinite_arc2d_s_sound (M : MathOps α) (l : LR2 α) (a
     (h : q ∈ intersect_line2d_infinite_arc2d_s M l a) :
     OnCircle2 a q ∧ OnLine2 l q ∧ arc2_pt_in M a q = true := by
   rw [Lemmas.intersect_line2d_infinite_arc2d_s_eq] at h
-  obtain ⟨h1, h2, h3, _⟩ := Lemmas.arcPts_sound .line M l a q hv (hsqrt _) h
-  exact ⟨h1, h2, h3⟩
+  exact Lemmas.arcPts_sound .line M l a q hv (hsqrt _) h
 
 /-- Completeness (carrier line of a segment × arc): every point of the carrier line that lies on
 the circle and passes the angular filter is returned. -/
@@ -1236,8 +1218,7 @@ theorem intersect_line2d_infinite_arc2d_r_sound (M : MathOps α) (l : LR2 α) (a
     (h : q ∈ intersect_line2d_infinite_arc2d_r M l a) :
     OnCircle2 a q ∧ OnLine2 l q ∧ arc2_pt_in M a q = true := by
   rw [Lemmas.intersect_line2d_infinite_arc2d_r_eq] at h
-  obtain ⟨h1, h2, h3, _⟩ := Lemmas.arcPts_sound .line M l a q hv (hsqrt _) h
-  exact ⟨h1, h2, h3⟩
+  exact Lemmas.arcPts_sound .line M l a q hv (hsqrt _) h
 
 /-- Completeness (carrier line of a ray × arc): every point of the carrier line that lies on
 the circle and passes the angular filter is returned. -/
@@ -1252,20 +1233,19 @@ theorem intersect_line2d_infinite_arc2d_r_complete (M : MathOps α) (l : LR2 α)
   subst hq
   exact Lemmas.arcPts_complete .line M l a hv (hsqrt _) t trivial hc hf
 
-/-- COUNTER-EXAMPLE to the full soundness statement (tangent-case defect), at ℚ: the segment
-`(0,1)→(1,1)` lies on the line `y = 1`, which is tangent to the unit circle centred at `(5,0)` at
-`(5,1)` (parameter `u = 5`, outside `[0,1]`; discriminant `0`, `√0 = 0` exact).  The routine returns
-the tangent point although it is not on the segment.  (`M.pi := 3`, full circle `a1 = 0`,
-`a2 = 2·M.pi`, so no trigonometry is evaluated.) -/
+/-- The former tangent-case defect is fixed (ℚ): the segment `(0,1)→(1,1)` lies on the line
+`y = 1`, tangent to the unit circle centred at `(5,0)` at `(5,1)` (parameter `u = 5`, outside
+`[0,1]`; discriminant `0`, `√0 = 0` exact); the routine now returns `[]`.  The longer segment
+`(0,1)→(10,1)` reaches the tangent point (`u = 1/2`) and gets `[(5,1)]`.  (`M.pi := 3`, full
+circle `a1 = 0`, `a2 = 2·M.pi`, so no trigonometry is evaluated.) -/
 example :
     intersect_line2d_arc2d_s
         (⟨fun _ => 0, id, id, id, id, id, fun _ _ => 0, 3, id⟩ : MathOps ℚ)
-        ⟨⟨0, 1⟩, ⟨1, 0⟩⟩ ⟨⟨5, 0⟩, 1, 0, 6, 1, 0, 1, 0⟩ = [⟨5, 1⟩]
-      ∧ ¬ OnSeg2 (⟨⟨0, 1⟩, ⟨1, 0⟩⟩ : LR2 ℚ) ⟨5, 1⟩ := by
-  refine ⟨by decide +kernel, ?_⟩
-  rintro ⟨t, _, h1, hx, _⟩
-  simp only [zero_add, mul_one] at hx
-  linarith
+        ⟨⟨0, 1⟩, ⟨1, 0⟩⟩ ⟨⟨5, 0⟩, 1, 0, 6, 1, 0, 1, 0⟩ = []
+      ∧ intersect_line2d_arc2d_s
+        (⟨fun _ => 0, id, id, id, id, id, fun _ _ => 0, 3, id⟩ : MathOps ℚ)
+        ⟨⟨0, 1⟩, ⟨10, 0⟩⟩ ⟨⟨5, 0⟩, 1, 0, 6, 1, 0, 1, 0⟩ = [⟨5, 1⟩] := by
+  decide +kernel
 
 /-- Non-vacuity: the segment `(0,0)→(10,0)` crosses the full unit circle centred at `(5,0)` at
 `(6,0)` and `(4,0)` (discriminant `400`, `√400 = 20`). -/
